@@ -398,6 +398,7 @@ type Exec struct {
 	logs   []Value
 
 	sched *scheduler
+	preemptAtGo bool
 	races     []RaceReport
 	harnessFn map[*ssa.Function]bool
 	spawnVC   vclock
